@@ -263,10 +263,23 @@ def run_case(case: dict) -> CaseResult:
         (resolved, nothing found, resolver hangs until the 30 s limit cancels it, TCP refused, caller cancels) the
         ownership ledger must balance when the call is over."""
         env.tcp_script = [("refuse", D)] if op.get("tcp") == "refuse" else [("ok", 2 * D)]
-        cli = make_client(env, address=op.get("address", "kitchen.local"))
+        given = list(op["addresses"]) if op.get("addresses") else None
+        handed = list(given) if given else None  # the application's own list object
+        cli = make_client(env, address=(given[0] if given else op.get("address", "kitchen.local")), addresses=handed)
         cli._params.zeroconf_manager = manager
+        env.tcp_land = int(op.get("land", 0))
+        if given and op.get("again") and op.get("tcp") != "refuse" and op.get("cancel_after") is None:
+            # a first session on this client (the socket ends up on candidate `land`), ended, before the connect judged
+            # below: every connect of a client resolves the configured addresses in the configured order
+            try:
+                await cli.connect(login=True)
+            except APIConnectionError:
+                pass
+            await cli.disconnect(force=True)
+            await asyncio.sleep(2 / 64)
+            classes.add("client_second_connect_multi_address")
         n_tcp0 = len(env.tcp_calls)
-        exp_addrs, _ml, _ol, _oe = reference([op.get("address", "kitchen.local")], world.mdns, case.get("dns") or {})
+        exp_addrs, _ml, _ol, _oe = reference(given or [op.get("address", "kitchen.local")], world.mdns, case.get("dns") or {})
         t = env.spawn(f"client{i}", cli.connect(login=True))
         if op.get("cancel_after") is not None:
             await asyncio.sleep(op["cancel_after"] / 64)
@@ -286,6 +299,7 @@ def run_case(case: dict) -> CaseResult:
             if got_a != [tuple(x) for x in exp_addrs]:
                 viol.append(V("c20:connect:addresses-handed-to-the-socket-layer", f"op {i} connect({op.get('address')}): socket layer got {got_a}, resolved {exp_addrs}"))
             classes.add("connect_addresses_checked")
+        env.tcp_land = 0
         await cli.disconnect(force=True)
         await asyncio.sleep(2 / 64)
         ledger(f"op {i} client connect ({op})", 1 if model["inst"] == "created" else 0)
@@ -386,6 +400,10 @@ def _case(draw, tier):
         elif draw(st.booleans()):
             ops.append({"op": "client", "tcp": draw(st.sampled_from(["refuse", "ok"])), "address": draw(st.sampled_from(["kitchen.local", "kitchen", "bedroom.local", "dev.example.com", "fe80::1%3", "fd00::7", "10.0.0.5", "fe80::aa%11"])),
                         "cancel_after": draw(st.sampled_from([None, None, 0, 1, 2, 64 * 10]))})
+            if draw(st.integers(0, 2)) == 0:
+                ops[-1]["addresses"] = draw(st.lists(st.sampled_from(["10.0.0.5", "10.0.0.6", "fd00::7", "fe80::1%3", "kitchen.local", "dev.example.com"]), min_size=2, max_size=3, unique=True))
+                ops[-1]["land"] = draw(st.integers(0, 2))
+                ops[-1]["again"] = draw(st.booleans())
         else:
             ops.append({"op": "rl", "tcp": draw(st.sampled_from(["refuse", "ok"])), "pass_instance": draw(st.booleans()), "wait": draw(st.sampled_from([1, 3])), "address": draw(st.sampled_from(["kitchen.local", "kitchen", "10.0.0.5"]))})
     mdns = {n: draw(st.sampled_from(MDNS_OUT + ([MDNS_HANG] if any(o["op"] == "client" for o in ops) else []))) for n in ("kitchen", "bedroom", "porch")}
@@ -401,6 +419,11 @@ def enumerated(tier):
     for kind in ("async", "sync"):
         yield {"manager": "empty", "mdns": {}, "dns": {}, "ops": [{"op": "get"}, {"op": "supply", "kind": kind}, {"op": "close"}]}
         yield {"manager": "empty", "mdns": {"kitchen": MDNS_OUT[0]}, "dns": {}, "ops": [{"op": "get"}, {"op": "supply", "kind": kind}, {"op": "resolve", "hosts": ["kitchen.local"]}, {"op": "close"}, {"op": "supply", "kind": kind}, {"op": "close"}]}
+    # several configured addresses, the socket landing on the k-th candidate, then a second connect on the same client
+    for addrs in (["10.0.0.5", "10.0.0.6"], ["10.0.0.5", "fd00::7", "10.0.0.6"], ["fe80::1%3", "10.0.0.5"], ["10.0.0.5", "kitchen.local"]):
+        for land in (0, 1, 2):
+            for again in (False, True):
+                yield {"manager": "empty", "mdns": {"kitchen": MDNS_OUT[0]}, "dns": {}, "ops": [{"op": "client", "tcp": "ok", "addresses": addrs, "land": land, "again": again}]}
     # a full connect: the resolved addresses reach the socket layer verbatim (scope ids, order)
     for addr in ("fe80::1%3", "fe80::aa%11", "fd00::7", "10.0.0.5", "kitchen.local", "kitchen", "dev.example.com"):
         for tcp in ("ok", "refuse"):
